@@ -180,7 +180,8 @@ def check(chk):
             elif idx == 'point':
                 ok_l = ok_l and ((c == 'raw' and at_end is False) or c == 'zero')
             else:
-                ok_l = False
+                # an index computed by an expression of point and len(self.ring): folded over every position of a ring of three
+                ok_l = ok_l and _wraps(gr, idx)
     zeros = [n for n in ggr.stmt_nodes() if n.kind == 'stmt' and isinstance(n.ast, ast.Assign) and src(n.ast.targets[0]) == 'point' and src(n.ast.value) == '0']
     ok_l = ok_l and all(fa.knows('point == len(self.ring)') is True and c == 'raw' for n in zeros for fa, c in flg.at(n))
     chk.judge(ok_l, 'C26.lookup', gr, 'bisect_left; past the last token wraps to ring[0]', 'replica lookup no longer uses the first token at or after the key, wrapping around')
@@ -208,9 +209,17 @@ def _simple_walk(ss):
     subs = [x for x in ast.walk(ss) if isinstance(x, ast.Subscript) and src(x.value) == 'ring' and isinstance(x.slice, ast.BinOp) and isinstance(x.slice.op, ast.Mod)]
     subs = [x for x in subs if res(x.slice.right) == 'len(ring)' and isinstance(x.slice.left, ast.BinOp) and isinstance(x.slice.left.op, ast.Add)
             and isinstance(x.slice.left.left, ast.Name) and isinstance(x.slice.left.right, ast.Name)]
+    single = None
     if len(subs) != 1:
-        return False, 'no ring[(start + step) % len(ring)] lookup'
-    idx_names = set([subs[0].slice.left.left.id, subs[0].slice.left.right.id])
+        # one running index: for position in range(start, start + len(ring)): ring[position % len(ring)]
+        subs1 = [x for x in ast.walk(ss) if isinstance(x, ast.Subscript) and src(x.value) == 'ring' and isinstance(x.slice, ast.BinOp) and isinstance(x.slice.op, ast.Mod)
+                 and res(x.slice.right) == 'len(ring)' and isinstance(x.slice.left, ast.Name)]
+        if len(subs1) != 1:
+            return False, 'no ring[(start + step) % len(ring)] lookup'
+        single = subs1[0].slice.left.id
+        idx_names = set([single])
+    else:
+        idx_names = set([subs[0].slice.left.left.id, subs[0].slice.left.right.id])
     # fewer than RF placed where a host is added
     for fa, _c in fl.at(apps[0]):
         okf = False
@@ -234,8 +243,36 @@ def _simple_walk(ss):
         if not (steps and incs):
             return False, 'the inner walk is not bounded by len(ring) steps'
     elif isinstance(lp, ast.For):
-        if not (isinstance(lp.target, ast.Name) and lp.target.id in idx_names and res(lp.iter) == 'range(len(ring))'):
+        it_ = lp.iter
+        one_round = isinstance(it_, ast.Call) and src(it_.func) == 'range' and len(it_.args) == 2 and isinstance(it_.args[0], ast.Name) and \
+            res(it_.args[1]) in ('%s + len(ring)' % it_.args[0].id, 'len(ring) + %s' % it_.args[0].id)
+        if not (isinstance(lp.target, ast.Name) and lp.target.id in idx_names and ((single is None and res(lp.iter) == 'range(len(ring))') or (single is not None and one_round))):
             return False, 'the inner walk is not `for step in range(len(ring))`'
     else:
         return False, 'inner loop not found'
     return True, ''
+
+
+def _wraps(fn, idx_text):
+    from ..sem import resolve
+    from ..fold import Folder, Unfoldable
+    import copy
+    e = resolve(fn, ast.parse(idx_text, mode='eval').body, keep=('point',))
+    # resolve works on names of fn: a bare name parsed from text has no position - look its single assignment up by hand
+    if isinstance(e, ast.Name):
+        ds = [st.value for st in body_walk(fn) if isinstance(st, ast.Assign) and len(st.targets) == 1 and src(st.targets[0]) == e.id]
+        if len(ds) != 1:
+            return False
+        e = ds[0]
+
+    class L(ast.NodeTransformer):
+        def visit_Call(s_, n):
+            if src(n) == 'len(self.ring)':
+                return ast.Name(id='_n', ctx=ast.Load())
+            return s_.generic_visit(n)
+    e = L().visit(copy.deepcopy(e))
+    fo = Folder(fn._mod)
+    try:
+        return [fo.eval(e, env={'point': p_, '_n': 3}) for p_ in range(4)] == [0, 1, 2, 0]
+    except (Unfoldable, TypeError):
+        return False
